@@ -20,7 +20,7 @@ def fam_c01(rnd, tier):
     out = []
     for i in range(n):
         ast, pos = gen.program_c01(rnd)
-        out.append((f"c01:{i}:{pos}", ast, ["canon", "min", "oneline"] if i % 3 == 0 else (["canon", "typed"] if i % 3 == 1 else ["canon"])))
+        out.append((f"c01:{i}:{pos}", ast, ["canon", "min", "oneline"] if i % 3 == 0 else (["canon", "typed"] if i % 3 == 1 else ["canon", "alt"])))
     # (i) exhaustive operator table over the special atoms; precedence/associativity chains printed WITHOUT parentheses
     for i, ast in enumerate(gen.operator_table_programs()):
         out.append((f"c01op:{i}", ast, ["canon"]))
@@ -34,7 +34,7 @@ def fam_c01(rnd, tier):
 @family("C02")
 def fam_c02(rnd, tier):
     n = 1500 if tier == "quick" else 12000
-    out = [(f"c02:{i}", gen.program_c02(rnd), ["canon", "typed"] if i % 4 == 0 else ["canon"]) for i in range(n)]
+    out = [(f"c02:{i}", gen.program_c02(rnd), ["canon", "typed"] if i % 4 == 0 else (["canon", "alt"] if i % 4 == 1 else ["canon"])) for i in range(n)]
     # the general generator also produces closures, loops and nested functions
     for i in range(n // 2):
         ast, pos = gen.program_c01(rnd, opts=dict(err=0.02))
@@ -45,13 +45,13 @@ def fam_c02(rnd, tier):
 @family("C03")
 def fam_c03(rnd, tier):
     n = 1200 if tier == "quick" else 15000
-    return [(f"c03:{i}", gen.program_c03(rnd), ["canon", "typed"] if i % 4 == 0 else ["canon"]) for i in range(n)]
+    return [(f"c03:{i}", gen.program_c03(rnd), ["canon", "typed"] if i % 4 == 0 else (["canon", "alt"] if i % 2 == 1 else ["canon"])) for i in range(n)]
 
 
 @family("C04")
 def fam_c04(rnd, tier):
     n = 2000 if tier == "quick" else 15000
-    out = [(f"c04:{i}", gen.program_c04(rnd), ["canon", "typed"] if i % 4 == 0 else ["canon"]) for i in range(n)]
+    out = [(f"c04:{i}", gen.program_c04(rnd), ["canon", "typed"] if i % 4 == 0 else (["canon", "alt"] if i % 4 == 1 else ["canon"])) for i in range(n)]
     for i in range(n // 3):
         ast, pos = gen.program_c01(rnd, opts=dict(err=0.15))
         out.append((f"c04g:{i}:{pos}", ast, ["canon"]))
